@@ -3,7 +3,7 @@
    replace a file's whole content; a run creates, reads back and removes only temp files whose names derive from
    its own chunk and partition counts. *)
 From Coq Require Import NArith List String.
-From KT Require Import Model.Show Model.Fs Model.CtrFs Proof.Merge Proof.DegenerateProof Proof.CtrFsProof.
+From KT Require Import Model.Show Model.Fs Model.CtrFs Proof.Merge Proof.DegenerateProof Proof.CtrFsProof Proof.CovFsProof.
 Import ListNotations.
 Notation length := List.length.
 Notation concat := List.concat.
@@ -49,6 +49,19 @@ Proof. exact temp_name_inj. Qed.
 Theorem C17_temp_name_is_not_the_counts_table : forall dir p c, temp_name dir p c <> counts_name dir.
 Proof. exact temp_not_counts. Qed.
 
+(* `cov` with its concrete files: count + merge into the location, counts table read back, vectors file created.
+   For EVERY previous content f: the run does not fail, kmers.vectors is computed from this run's own table,
+   kmers.counts is this run's table, its temp files are gone, every other path is untouched *)
+Theorem C17_cov_files_independent_of_previous_content :
+  forall k bs bc norm delim mem n_parts dir bags recs f,
+  exists f', cov_fs k bs bc norm delim mem n_parts dir bags recs f = Some f' /\
+    fs_read (vectors_name dir) f' = Some (CtrFs.cov_rows k bs bc norm delim mem (cov_table (merged n_parts bags)) recs) /\
+    fs_read (counts_name dir) f' = Some (file_text (merged n_parts bags)) /\
+    (forall q, own n_parts dir (N.of_nat (length bags)) q -> fs_read q f' = None) /\
+    (forall q, q <> counts_name dir -> q <> vectors_name dir -> ~ own n_parts dir (N.of_nat (length bags)) q ->
+               fs_read q f' = fs_read q f).
+Proof. exact cov_fs_correct. Qed.
+
 Example C17_example :
   let stale := [(Show.str "out/kmers.counts"%string, Show.str "old"%string); (Show.str "out/temp_kmers.part_9_chunk_3"%string, Show.str "7 7"%string)] in
   let c := {| results := [(Show.str "out/kmers.counts"%string, Show.str "new"%string)]; temps := [(Show.str "out/temp_kmers.part_0_chunk_0"%string, Show.str "1 1"%string)] |} in
@@ -63,3 +76,4 @@ Print Assumptions C17_counter_files_independent_of_previous_content.
 Print Assumptions C17_counter_same_table_in_any_two_locations.
 Print Assumptions C17_temp_names_distinct.
 Print Assumptions C17_temp_name_is_not_the_counts_table.
+Print Assumptions C17_cov_files_independent_of_previous_content.
